@@ -284,3 +284,19 @@ CHECKS['C09']['text'] += (
     "consumed per rule); next_node_for_allowed (every call of a routing object, all three modes), finish_service_route (released or blocked towards exactly the router's answer), change_customer_class_spec, "
     "class_change_while_waiting_spec; run_many_PrioInv / priority_corresponds_to_class (priority = mapping[current class] after any number of events, every configuration and oracle); allowed_refuted_at_zero_draw and "
     "zero_probability_transition_refuted are closed witnesses of the open finding F-09a. PrioInv_b and the configuration hypotheses are evaluated on every real snapshot visited.")
+CHECKS['C10']['text'] += (
+    " T2 on the STAGE-2 engine model (Inv/Samples2.v, 1 470 lines; Properties/C10_stage2.v): arrival_have_event_spec and negative_batch_stops_the_run as on stage 1; node_event_keeps_arrivals (no service completion, renege, shift change, "
+    "slot or class change touches the arrival table); start_fresh_stamps (start = now, the NEXT service draw, end = start + draw, same end on the server); run_many_SvcInv (for EVERY configuration and oracle the stamps stay consistent over any number of events), "
+    "stamps_persist (a service in progress is never altered: per event its stamps are unchanged, or it was started at this event, or cleared), release_writes_record (the record shows exactly the stamped duration); service_time_nonneg_refuted is a closed witness of the open finding F-02b.")
+CHECKS['C07']['text'] += (
+    " T2 on the STAGE-2 engine model (Inv/Blocking2.v, 1 850 lines; Properties/C07_stage2.v): run_many_len2 (counter = length, every configuration), run_many_blk2 / blk2_means (nobody is left blocked while the destination has space; scope: 'reroute' "
+    "pre-emption only at nodes without capacity), event_step_fifo2 (per event blocked queues only lose heads or exactly one customer joins the end of a full node's queue; scope: no resume / restart / resample schedule or slot pre-emption); "
+    "blk2_refuted_reroute is a closed witness of the NEW open finding F-07b (found by this proof, reproduced on the real engine), fifo_refuted_interrupted_blocked of F-02b.")
+CHECKS['C06']['text'] += (
+    " T2 on the STAGE-2 engine model (Inv/Blocking2.v; Properties/C06_stage2.v): run_many_cap2 / cap2_means - no node exceeds its capacity, in the scope without 'reroute' pre-emption and without jockeying into nodes of finite capacity; "
+    "cap2_refuted_jockeying and cap2_refuted_reroute are closed witnesses that both moves enter a node without a capacity test (outside the property's rejection / blocking mechanisms).")
+CHECKS['C08']['text'] += (
+    " T2 on the STAGE-2 engine model (Inv/Order2.v, 1 810 lines; Properties/C08_stage2.v), function level: chosen_is_prescribed / none_chosen_none_waiting / fifo_no_overtaking (interrupted and slotted customers do not wait); every path that starts a service starts "
+    "the choice at that moment: serve_with_starts (release), change_shift_starts and slotted_service_starts (by induction over the free servers / the slot size: each start is the choice at the state the previous starts left, interrupted customers first), "
+    "accept_tail_starts, preempt_starts; accept_enqueues / class_change_moves_to_tail / queue_order_is_order_of_joining (queue order within a class is the order of joining THAT queue); fifo_by_arrival_date_refuted is a closed witness of the open finding F-08a, "
+    "preemptor_started_twice_refuted of F-11a.")
